@@ -235,7 +235,26 @@ pub fn drive(a: &Args) {
         let errkind = if kind.contains("udp") { "Uncategorized" } else { "WouldBlock" };
         let mut stray = 0usize;
         take_hooks();
-        for _ in 0..ops {
+        let mut wire = wire;
+        let mut old_receivers: Vec<UnixDatagram> = vec![];
+        let rebind_at = if kind.contains("unix") && rng.random_bool(0.6) { rng.random_range(1..ops) } else { u64::MAX };
+        for opi in 0..ops {
+            if opi == rebind_at {
+                // the server behind the path is replaced (restart / hand-over): the sink was given a PATH and
+                // must keep sending to whatever socket is bound there; the old socket stays open as a decoy
+                let got = wire.drain(0, Duration::from_millis(5));
+                stray += resolve(&mut evs, &mut outstanding, got, errkind).len();
+                if let Wire::Unix(r, d, p) = wire {
+                    let _ = std::fs::remove_file(&p);
+                    let nr = UnixDatagram::bind(&p).unwrap();
+                    nr.set_nonblocking(true).unwrap();
+                    old_receivers.push(r);
+                    wire = Wire::Unix(nr, d, p);
+                    evs.push(json!({"ev":"note","rebind":true}));
+                } else {
+                    unreachable!();
+                }
+            }
             let flush = buffered && rng.random_range(0..10) == 0;
             let text = if flush {
                 String::new()
@@ -264,6 +283,15 @@ pub fn drive(a: &Args) {
             }
             // a non-blocking Unix receiver is left undrained most of the time so that its queue fills up
             let drain_now = !nonblock || rng.random_bool(0.15);
+            // sockets that used to be at the path are emptied at once (a blocking sender must never wait on them)
+            {
+                let mut b = [0u8; 2048];
+                for o in &old_receivers {
+                    while o.recv(&mut b).is_ok() {
+                        stray += 1;
+                    }
+                }
+            }
             if drain_now {
                 let want = outstanding.len().min(if matches!(r, Ok(Ok(_))) { 1 } else { 0 });
                 let got = wire.drain(want, Duration::from_millis(if want > 0 { 2000 } else { 0 }));
@@ -302,7 +330,13 @@ pub fn drive(a: &Args) {
         let got = wire.drain(outstanding.len(), Duration::from_millis(500));
         stray += resolve(&mut evs, &mut outstanding, got, errkind).len();
         evs.push(if r.is_ok() { json!({"ev":"ret","ok":true,"n":0,"kind":""}) } else { json!({"ev":"panic","msg":last_panic()}) });
-        let decoy = wire.decoy();
+        let mut decoy = wire.decoy();
+        let mut buf = [0u8; 2048];
+        for o in &old_receivers {
+            while o.recv(&mut buf).is_ok() {
+                decoy += 1; // sent to the socket that USED to be at the path
+            }
+        }
         if stray > 0 || decoy > 0 {
             // datagrams nobody attempted, or delivered to the wrong address
             evs.push(json!({"ev":"att","hex":"ff","len":1,"ok":true,"kind":"","stray":stray,"decoy":decoy}));
@@ -362,7 +396,14 @@ impl MetricSink for Delegating {
         self.inner.emit(m)
     }
     fn flush(&self) -> std::io::Result<()> {
-        self.client.flush().map_err(|e| std::io::Error::new(std::io::ErrorKind::Other, e.to_string()))
+        // StatsdClient::flush wraps the sink's io::Error in a MetricError: hand the sink's own error back
+        self.client.flush().map_err(|e| {
+            let kind = std::error::Error::source(&e)
+                .and_then(|s| s.downcast_ref::<std::io::Error>())
+                .map(|i| i.kind())
+                .unwrap_or(std::io::ErrorKind::Other);
+            std::io::Error::new(kind, e.to_string())
+        })
     }
     fn stats(&self) -> cadence::SinkStats {
         QueuingMetricSink::from(ArcSink(self.inner.clone())).stats()
@@ -380,9 +421,56 @@ pub fn conc(a: &Args) {
     let mut rng = StdRng::seed_from_u64(seed ^ 0xc0c0_0007);
     let mut calls = 0u64;
     let mut sample = json!(null);
-    let kinds = ["bspy", "budp", "bunix", "udp", "bspy", "unix", "budp"];
+    let kinds = ["bspy", "budp", "bunix", "udp", "bspy", "unix", "budp", "bulk-udp", "bulk-unix"];
     for run in 0..runs {
         let kind = kinds[(run as usize) % kinds.len()];
+        if kind.starts_with("bulk-") {
+            // C14 under heavy contention: 8 threads hammer ONE unbuffered sink; only the tallies are recorded
+            // (each thread counts its own Ok / Err results and bytes), then stats() is read at quiescence
+            let (wire, sink): (Wire, Arc<DynSink>) = if kind == "bulk-udp" {
+                let (w, addr, s) = udp_wire();
+                (w, Arc::new(UdpMetricSink::from(addr, s).unwrap()))
+            } else {
+                // nothing is bound at the path: every send is refused
+                let (w, p, s) = unix_wire(&format!("b{}", run));
+                let _ = std::fs::remove_file(&p);
+                (w, Arc::new(UnixMetricSink::from(&p, s)))
+            };
+            t.ev(json!({"ev":"reset","cap":0,"tlen":0,"term":"","kind":kind,"run":run}));
+            let nthreads = 8u64;
+            let per = 15_000u64;
+            let mut js = vec![];
+            for ti in 0..nthreads {
+                let s = sink.clone();
+                js.push(std::thread::spawn(move || {
+                    let (mut okn, mut okb, mut ern, mut erb) = (0u64, 0u64, 0u64, 0u64);
+                    for i in 0..per {
+                        let m = if i % 3 == 0 { "bulk.a:1|c" } else { "bulk.longer.metric.name:123456|g|#t:x" };
+                        let _ = ti;
+                        match s.emit(m) {
+                            Ok(n) => { okn += 1; okb += n as u64; }
+                            Err(_) => { ern += 1; erb += m.len() as u64; }
+                        }
+                    }
+                    (okn, okb, ern, erb)
+                }));
+            }
+            let mut tot = (0u64, 0u64, 0u64, 0u64);
+            for j in js {
+                if let Ok(x) = j.join() {
+                    tot = (tot.0 + x.0, tot.1 + x.1, tot.2 + x.2, tot.3 + x.3);
+                }
+            }
+            calls += nthreads * per;
+            t.ev(json!({"ev":"bulk","okn":tot.0,"okb":tot.1,"ern":tot.2,"erb":tot.3,"threads":nthreads,"per":per}));
+            t.ev(stats_ev(&sink.stats()));
+            drop(sink);
+            let _ = wire.drain(0, Duration::from_millis(1));
+            if let Wire::Unix(_, _, p) = &wire {
+                let _ = std::fs::remove_file(p);
+            }
+            continue;
+        }
         let cap = [1usize, 8, 24, 64, 200, 512][rng.random_range(0..6)];
         let nthreads = rng.random_range(2..=4u64);
         let per = rng.random_range(5..=40u64);
